@@ -221,6 +221,38 @@ def run(chk):
                           {'calls': [[c['entry'], c['name'], c['s'], c['t'], c['out']] for c in t['calls']], 'status': t['status'], 'clauses': ['HeaderListTotal']})
         if not t['types_ok']:
             chk.violation('C14: emitted header list contains a non-str element', {'clauses': ['NativeStrings'], 'status': t['status']})
+    # text that cannot be encoded at all (lone surrogates, as os.fsdecode produces for undecodable file names): such a value is
+    # either refused, or the response fails as a whole; it is never handed to the server as bytes that are not the UTF-8
+    # form of what was offered
+    splan = {}
+
+    @app.route('/sg')
+    def sg():
+        tgt = app.response if splan['mode'] == 'response' else HTTPResponse('body')
+        try:
+            if splan['entry'] == 'setitem':
+                tgt.headers['X-Name'] = splan['v']
+            elif splan['entry'] == 'append':
+                tgt.headers.append('X-Name', splan['v'])
+            else:
+                tgt.content_type = splan['v']
+        except (TypeError, ValueError):
+            splan['refused'] = True
+        return 'body' if splan['mode'] == 'response' else tgt
+    for v in ['r\udce9sum\udce9.txt', '\udcc3\udca9', 'a\ud800', '\udfff', 'ok-\udc80-\u20ac']:
+        for entry in ('setitem', 'append', 'property'):
+            for mode in ('response', 'httpresponse'):
+                splan.update(v=v, entry=entry, mode=mode, refused=False)
+                try:
+                    st, line, headers, body, nsr = call_app(app, base_environ(PATH_INFO='/sg'))
+                except Exception:   # noqa
+                    st, headers = 500, []
+                chk.count(1, ('surrogate', v, entry, mode))
+                name = 'Content-Type' if entry == 'property' else 'X-Name'
+                got = [hv for hk, hv in headers if hk == name and not (name == 'Content-Type' and hv.startswith('text/html'))]
+                if st == 200 and not splan['refused'] and got:
+                    chk.violation("C14: ['Latin1'] fails: %s %r (unencodable text) on %s was emitted as %r, which is not the UTF-8 form of any text that was offered"
+                                  % (entry, v, mode, got[0]), {'value': [ord(c) for c in v], 'entry': entry, 'mode': mode, 'clauses': ['Latin1'], 'surrogate': True})
     # Set-Cookie lines are response header values too: one line per cookie, whole, whatever text the cookie carries
     cplan = {}
 
